@@ -178,8 +178,12 @@ class Env:
 
     def stmt(self, d):
         """-> list of statements (usually one)"""
-        c = self.i(0, 29)
+        c = self.i(0, 31)
         t = self.pick(["int", "int", "int", "bool", "str"])
+        if c >= 30:
+            if d <= 0 or self.in_rfor:
+                return [["print", self.expr(t)]]
+            return self.closure_loop(d)
         if c <= 4:
             e = self.expr(t)
             return [["var", self.declare_name(t), e, self.pick(["var", "var", "auto"])]]
@@ -325,6 +329,38 @@ class Env:
         if d > 0 and self.chance(1, 4):
             return [["block", self.block(d - 1, 3)]]
         return [["print", self.expr(t)]]
+
+    def closure_loop(self, d):
+        """closures created in a loop capture the loop variable and are called in a later pass / after the loop"""
+        L = self.fresh("L")
+        self.scopes[-1][L] = "lamvec"
+        x = self.fresh("c")
+        write = self.chance(1, 3)
+        body = ([["assign", ["id", x], "+=", ["i", 100]]] if write else []) + [["expr", ["bin", "+", ["id", x], self.lit("int")]]]
+        push = ["expr", ["m", ["id", L], "push_back", [["lam", [], [x], body]]]]
+        g = self.fresh("g")
+        call_after = ["rfor", g, ["id", L], [["print", ["callv", ["id", g], []]]]]
+        out = [["var", L, ["vec", []], "var"]]
+        if self.chance(1, 2):
+            vs = self.visible("vec")
+            if vs and self.chance(2, 3):
+                src_name = self.pick(vs)
+                out.append(["rfor", x, ["id", src_name], [push]])
+                out.append(call_after)
+                out.append(["print", ["id", src_name]])
+            else:
+                src_name = self.fresh("w")
+                self.scopes[-1][src_name] = "vec"
+                out.append(["var", src_name, self.lit("vec"), "var"])
+                out.append(["rfor", x, ["id", src_name], [push, ["if", [[["bin", ">", ["size", ["id", L]], ["i", 1]], [["print", ["callv", ["idx", ["id", L], ["i", 0]], []]]]]], None]]])
+                out.append(call_after)
+                out.append(["print", ["id", src_name]])
+        else:
+            lo, hi = self.i(0, 1), self.i(1, 3)
+            cond, step = (["bin", "<", ["id", x], ["i", hi]], ["inc", "++", ["id", x]]) if self.chance(2, 3) else (["bin", "<=", ["id", x], ["i", hi]], ["inc", "++", ["id", x]])
+            out.append(["for", x, ["i", lo], cond, step, [push]])
+            out.append(call_after)
+        return out
 
     def lookup_type(self, name):
         for sc in reversed(self.scopes):
